@@ -187,6 +187,9 @@ class Translator:
         if op == C.IN:
             return z3.Concat(set_to_re(in_set(av, self.flags)), k)
         if op == C.BRANCH:
+            ov = getattr(self, "override", {}).get(id(av))
+            if ov is not None:
+                return self.seq(av[1][ov], k, at_start)
             return z3.Union(*[self.seq(b, k, at_start) for b in av[1]]) if len(av[1]) > 1 else self.seq(av[1][0], k, at_start)
         if op == C.SUBPATTERN:
             group, add_flags, del_flags, p = av
@@ -197,6 +200,8 @@ class Translator:
             if op == C.POSSESSIVE_REPEAT:
                 raise Unsupported("possessive repeat")
             lo, hi, p = av
+            if lo == 0 and id(av) in getattr(self, "force", set()):
+                lo = 1        # an optional part that must be taken (it contains the alternative under study)
             if _has_lookaround(p):
                 raise Unsupported("look-around under a repeat")
             if _has_anchor(p):
@@ -302,3 +307,52 @@ def find_group(items, gid):
         if op == C.SUBPATTERN and av[0] == gid:
             return i
     return None
+
+
+def branches(items, out=None):
+    """all BRANCH nodes (their av tuples) of a parsed pattern, depth first"""
+    out = [] if out is None else out
+    for op, av in items:
+        if op == C.BRANCH:
+            out.append(av)
+            for b in av[1]:
+                branches(b, out)
+        elif op == C.SUBPATTERN:
+            branches(av[3], out)
+        elif op in (C.MAX_REPEAT, C.MIN_REPEAT):
+            branches(av[2], out)
+        elif op in (C.ASSERT, C.ASSERT_NOT):
+            branches(av[1], out)
+    return out
+
+
+def _ancestors_optional(items, target_av, acc):
+    """ids of the optional repeats on the path from the top to the BRANCH node target_av"""
+    for op, av in items:
+        if op == C.BRANCH:
+            if av is target_av:
+                return acc
+            for b in av[1]:
+                r = _ancestors_optional(b, target_av, acc)
+                if r is not None:
+                    return r
+        elif op == C.SUBPATTERN:
+            r = _ancestors_optional(av[3], target_av, acc)
+            if r is not None:
+                return r
+        elif op in (C.MAX_REPEAT, C.MIN_REPEAT):
+            r = _ancestors_optional(av[2], target_av, acc + ([id(av)] if av[0] == 0 else []))
+            if r is not None:
+                return r
+    return None
+
+
+def lang_with(parsed_items, flags, mode, override, branch_av=None):
+    t = Translator(flags)
+    t.override = override
+    if branch_av is not None:
+        t.force = set(_ancestors_optional(parsed_items, branch_av, []) or [])
+    k = re_eps() if mode == "fullmatch" else re_full()
+    if mode == "search":
+        return z3.Concat(re_full(), t.seq(parsed_items, k, False))
+    return t.seq(parsed_items, k, True)
